@@ -6,6 +6,9 @@
 //	             from a populated default in <= k fields, every field ranging over a small boundary domain:
 //	             dec(enc(v)) == v, enc(dec(enc(v))) == enc(v), equal values give equal bytes
 //	map order    every insertion order of every key subset of size <= 4 gives one encoding
+//	streaming    every round-trip value again through DecodeReader / DecodeReaderWithType from readers that deliver the bytes in
+//	             chunks (fixed sizes, every composition of short encodings, last chunk with io.EOF, a (0,nil) read, with
+//	             and without bufio in between): same value, same error class, same number of consumed bytes (stream.go)
 //	hostile      for every valid encoding of the <= 1-deviation corpus: every truncation, every single-byte substitution
 //	             over a 16-byte set, every item of the encoding's item tree replaced by every member of a set of
 //	             hostile items (lengths of the enclosing lists recomputed), every registered type prefix replaced by
@@ -433,9 +436,9 @@ func main() {
 			n *= 2
 		}
 		for s := 0; s < n; s++ {
-			add(unit{Kind: "rt", Root: i, Shard: s, NShards: n, MaxDev: rtDev, DepthLim: rtDepth, Cost: est / n})
+			add(unit{Kind: "rt", Root: i, Shard: s, NShards: n, MaxDev: rtDev, DepthLim: rtDepth, Cost: est / n, CutAll: r.Pick(8, 12)})
 		}
-		add(unit{Kind: "fit", Root: i, Cost: 2000000})
+		add(unit{Kind: "fit", Root: i, Cost: 2000000, CutAll: r.Pick(8, 12)})
 	}
 	devBudget := 4e6 // microseconds of estimated work per (root, entry point) in the quick tier
 	for i := range roots {
@@ -672,7 +675,7 @@ func main() {
 		opq = append(opq, o)
 	}
 	sort.Strings(opq)
-	decodes := counters["roundtrip_decodes"] + counters["hostile_decodes"] + counters["accepted_value_roundtrips"] + counters["map_encodings"]
+	decodes := counters["roundtrip_decodes"] + counters["hostile_decodes"] + counters["accepted_value_roundtrips"] + counters["map_encodings"] + counters["chunked_stream_decodes"]
 	r.Set("root_types", len(roots))
 	r.Set("registered_concrete_types", len(reg.concrete))
 	r.Set("registered_interface_types", len(reg.ifaces))
@@ -689,6 +692,7 @@ func main() {
 	r.Set("bounds", map[string]interface{}{"round_trip_max_fields_off_default": rtDev, "round_trip_depth_limit_per_deviation": rtDepth,
 		"hostile_corpus_max_fields_off_default": 1,
 		"boundary_values_one_at_a_time":         "unsigned: 2^k-1,2^k,2^k+1 for k in {7,8,16,24,32,40,48,56}; big.Int: the same up to k=128 plus 55/56-byte values; byte strings and strings: lengths 55,56,255,256,65535,65536,65537 (raw []byte root also 2^24-1,2^24,2^24+1); lists of unsigned / of byte strings: payload exactly 55,56,255,256,65535,65536,65537",
+		"stream_readers":                        fmt.Sprintf("DecodeReader / DecodeReaderWithType on every round-trip value: chunks of 1,2,3,7,64,len/3,len/2-1 (values with >= 2 fields off default: 1,3,7,len/3; > 1024 bytes: 7,len/3), last chunk with io.EOF, one (0,nil) read, bufio-wrapped and direct ByteReader; encodings of values with <= 1 field off default: every composition into chunks up to %d bytes, every composition with <= 3 cuts up to %d bytes and <= 2 cuts up to 24 bytes; hostile inputs of the streaming entry points: 3 chunkings each (1 when > 1024 bytes)", r.Pick(8, 12), r.Pick(8, 12)+8),
 		"payload_fitting":                       "per root, up to 6 byte-string fields x top-level list payload exactly 55,56,255,256,65535,65536,65537", "substitution_bytes": fmt.Sprintf("%x", substSet), "hostile_items": len(hostileItems()),
 		"alloc_bound": fmt.Sprintf("%d + %d*len(input) (+%d for reader entry points)", allocConst, allocPerByte, 2*readerLimit), "address_space_limit": memLimit})
 	r.Set("states", counters["distinct_encodings"])
@@ -703,6 +707,7 @@ func main() {
 	r.Assume("equality is taken over the fields the codec carries, modulo the nil/empty foldings documented in libs/ser (nil pointer = empty encoding, nil = empty slice/map, nil *big.Int = 0, time = (sec, nsec) in UTC)")
 	r.Assume("types.Log carries Address/Topics/Data only (types/log.go: the other fields are derived, not consensus fields)")
 	r.Assume("decoders are called the way the repository calls them: DecodeReader* with a limit of 1 MiB; the unlimited ser.Decode on a stream (documented as unsafe in decode.go) is not an entry point")
+	r.Assume("reader behaviour: how a stream delivers the bytes is enumerated for the two ser streaming entry points (chunk sizes, compositions of short encodings, data+EOF, zero-length read); WALDecoder reads its frame with bare Read calls from a GroupReader that fills the buffer (framing belongs to C14) and is not chunked here")
 	r.Assume("hostile WAL input is a correctly framed (crc, length) hostile payload; the framing itself belongs to C14")
 	r.Assume("Bulletproofs inside the real confidential transaction are the ideal functionality of /verif/xcrypto_model; the codec does not look at them")
 	if skippedUnits == 0 && os.Getenv("C11_ONLY") == "" {
